@@ -557,6 +557,9 @@ func (g *vtC08G) newPod(uid int64) vtC08PodRec {
 	}
 	p[3] = g.pick(9000, 9500, 9999, 9000, 7000, 7999, 5000, 5999, 3000, 3999)
 	p[11], p[12], p[13], p[14] = -1, -1, -1, -1
+	if g.r.Intn(20) == 0 {
+		p[5] = 1 // a reservation's reserve pod: never cached
+	}
 	g.mutateSpec(&p)
 	g.mutateSpec(&p)
 	if g.r.Intn(4) == 0 {
@@ -626,6 +629,9 @@ func vtC08Gen(r *rand.Rand, i int) (string, []int64) {
 	g.ut = newUT()
 	g.iv = g.pick(60, 60, 30, 0, 120, 1)
 	in := []int64{g.thr(), g.thr(), g.thr(), g.thr()}
+	if style == "filter" {
+		in[0] = g.pick(50, 57, 65, 80)
+	}
 	aggOn := vtB(r.Intn(3) == 0)
 	in = append(in, aggOn, g.thr(), g.thr(), g.pick(0, 1, 1, 2, 2), g.pick(0, 0, 300, 600))
 	in = append(in, g.pick(0, 1, 2, 2, 2), expF, expV, g.pick(0, 1, 1, 2))
@@ -637,7 +643,9 @@ func vtC08Gen(r *rand.Rand, i int) (string, []int64) {
 		in = append(in, g.pick(85, 100, g.factor()), g.pick(70, 100, g.factor()))
 	}
 	nops := 3 + r.Intn(14)
-	in = append(in, int64(nops))
+	cfgIn := in
+	in = []int64{}
+	count := int64(0)
 
 	nuid := int64(2 + r.Intn(4))
 	nnode := int64(1 + r.Intn(3))
@@ -663,6 +671,7 @@ func vtC08Gen(r *rand.Rand, i int) (string, []int64) {
 		}
 		ivF := vtB(r.Intn(3) != 0)
 		infoF := vtB(r.Intn(10) != 0)
+		count++
 		in = append(in, 6, nowv, node, vtB(r.Intn(2) == 0), utF, g.ut, ivF, g.iv, infoF, g.cpu(), g.mem(), g.cpu(), g.mem())
 		if !(ivF != 0) {
 			g.iv = 60
@@ -726,6 +735,7 @@ func vtC08Gen(r *rand.Rand, i int) (string, []int64) {
 			node := anyNode()
 			q := *p
 			q[2] = 0
+			count++
 			in = append(in, 1, nowv, node)
 			in = append(in, q[:]...)
 			loc[uid] = node
@@ -736,6 +746,7 @@ func vtC08Gen(r *rand.Rand, i int) (string, []int64) {
 			}
 			q := *p
 			q[2] = 0
+			count++
 			in = append(in, 2, nowv, node)
 			in = append(in, q[:]...)
 			if loc[uid] == node {
@@ -745,6 +756,7 @@ func vtC08Gen(r *rand.Rand, i int) (string, []int64) {
 			if p[2] == 0 || r.Intn(4) == 0 {
 				p[2] = anyNode()
 			}
+			count++
 			in = append(in, 3, nowv)
 			in = append(in, p[:]...)
 			loc[uid] = p[2]
@@ -776,6 +788,7 @@ func vtC08Gen(r *rand.Rand, i int) (string, []int64) {
 			if r.Intn(8) == 0 {
 				old = g.pick(0, anyNode())
 			}
+			count++
 			in = append(in, 4, nowv, old)
 			in = append(in, p[:]...)
 			if p[4] == 0 && p[2] != 0 {
@@ -784,6 +797,7 @@ func vtC08Gen(r *rand.Rand, i int) (string, []int64) {
 				delete(loc, uid)
 			}
 		case kind < 66: // informer delete
+			count++
 			in = append(in, 5, nowv)
 			in = append(in, p[:]...)
 			in = append(in, vtB(r.Intn(4) == 0))
@@ -794,6 +808,7 @@ func vtC08Gen(r *rand.Rand, i int) (string, []int64) {
 		case kind < 84: // metric report
 			emitMetric(anyNode())
 		case kind < 88: // metric deleted
+			count++
 			in = append(in, 7, nowv, anyNode(), vtB(r.Intn(4) == 0))
 		default: // filter
 			var nd [17]int64
@@ -823,11 +838,26 @@ func vtC08Gen(r *rand.Rand, i int) (string, []int64) {
 			q := g.newPod(9)
 			q[2] = 0
 			q[6] = vtB(r.Intn(10) == 0)
-			in = append(in, 8, nowv, vtB(r.Intn(2) == 0))
-			in = append(in, nd[:]...)
-			in = append(in, q[:]...)
+			// a burst of decisions for consecutive incoming requests, so that the total crosses
+			// the threshold (and its exact ties) somewhere inside the burst
+			burst := 1
+			if r.Intn(2) == 0 {
+				burst = 2 + r.Intn(3)
+			}
+			step := g.pick(1, 1, 2, 5)
+			if g.large {
+				step = g.pick(10, 40, 100)
+			}
+			for b := 0; b < burst; b++ {
+				count++
+				in = append(in, 8, nowv, vtB(r.Intn(2) == 0))
+				in = append(in, nd[:]...)
+				in = append(in, q[:]...)
+				q[7] += step
+			}
 		}
 	}
+	in = append(append(cfgIn, count), in...)
 	label := style
 	if g.large {
 		label += "-large"
@@ -836,3 +866,97 @@ func vtC08Gen(r *rand.Rand, i int) (string, []int64) {
 }
 
 func TestVerifC08(t *testing.T) { vtMain(t, "C08", vtC08Gen, vtC08Exec) }
+
+// ---------------------------------------------------------------------------- stream "float"
+// A direct boundary grid for the two float64 computations the model emulates in integers:
+//   0 e t thr                            -> status of Plugin.filterNodeUsage on one dimension
+//   1 prio reqC limC facC reqM limM facM -> DefaultEstimator.EstimatePod
+
+func vtC08FloatExec(in []int64) []int64 {
+	switch in[0] {
+	case 0:
+		pl := &Plugin{vectorizer: NewResourceVectorizer(corev1.ResourceCPU, corev1.ResourceMemory)}
+		pod := &corev1.Pod{ObjectMeta: metav1.ObjectMeta{Namespace: "default", Name: "p"}}
+		s := pl.filterNodeUsage("n01", pod, ResourceVector{in[3], 0}, ResourceVector{in[1], 0}, ResourceVector{in[2], 0}, false)
+		return []int64{vtC08Status(s)}
+	default:
+		args := &config.LoadAwareSchedulingArgs{EstimatedScalingFactors: vtC08Map(in[4], in[7])}
+		est, _ := estimator.NewEstimator(args, nil)
+		var f [19]int64
+		f[0], f[1], f[3] = 1, 1, in[1]
+		f[7], f[9], f[8], f[10] = in[2], in[3], in[5], in[6]
+		f[11], f[12], f[13], f[14] = -1, -1, -1, -1
+		f[16], f[18] = vtC08ZeroTime, vtC08ZeroTime
+		list, err := est.EstimatePod(vtC08Pod(f[:], time.Unix(0, 0)))
+		if err != nil {
+			return []int64{-1, -1}
+		}
+		vec := NewResourceVectorizer(corev1.ResourceCPU, corev1.ResourceMemory).ToFactorVec(list)
+		return []int64{vec[0], vec[1]}
+	}
+}
+
+func vtC08FloatGen(r *rand.Rand, i int) (string, []int64) {
+	big := func() int64 {
+		switch r.Intn(6) {
+		case 0:
+			return int64(r.Intn(300))
+		case 1:
+			return int64(1)<<uint(r.Intn(61)) + int64(r.Intn(5)) - 2
+		case 2:
+			return r.Int63n(1 << 40)
+		case 3:
+			return r.Int63n(1 << 61)
+		case 4:
+			return 1000 * int64(1+r.Intn(128))
+		}
+		return int64(1+r.Intn(64)) << 30
+	}
+	if r.Intn(3) != 0 {
+		t := big()
+		if t < 0 {
+			t = 0
+		}
+		var e int64
+		thr := int64(r.Intn(130))
+		switch r.Intn(4) {
+		case 0: // exact tie (2*thr+1)*t = 200*e when t is a multiple of 200
+			t = 200 * (1 + t%(1<<50))
+			e = (2*thr + 1) * (t / 200)
+			e += int64(r.Intn(3)) - 1
+		case 1: // around thr % of t
+			e = t/100*thr + int64(r.Intn(7)) - 3
+		case 2:
+			e = t/200*(2*thr+1) + int64(r.Intn(5)) - 2
+		default:
+			e = big()
+		}
+		if e < 0 {
+			e = 0
+		}
+		// keep the percentage itself inside int64 (the float64 -> int64 conversion of a larger
+		// value is platform-defined; it needs a usage above 2^55 times the allocatable)
+		for t > 0 && e/t >= 1<<55 {
+			e >>= 8
+		}
+		return "pct", []int64{0, e, t, thr}
+	}
+	q := func() int64 {
+		switch r.Intn(5) {
+		case 0:
+			return 0
+		case 1:
+			return int64(r.Intn(400))
+		case 2:
+			return 50 * int64(r.Intn(100)) // x.5 ties for odd multiples with factor 1 mod 2
+		case 3:
+			return r.Int63n(1 << 40)
+		}
+		return r.Int63n(1 << 48)
+	}
+	f := func() int64 { return []int64{-1, 0, 1, 50, 70, 85, 99, 100, 101, 130, int64(r.Intn(1000))}[r.Intn(11)] }
+	prio := []int64{9000, 9999, 7000, 7999, 5000, 5999, 3000, 3999}[r.Intn(8)]
+	return "est", []int64{1, prio, q(), q(), f(), q(), q(), f()}
+}
+
+func TestVerifC08Float(t *testing.T) { vtMain(t, "C08", vtC08FloatGen, vtC08FloatExec) }
